@@ -61,6 +61,8 @@ const (
 	c17Gone     = "gone"      // pooled connection ended (EOF), the re-dial was refused: "creating connection: … refused"
 	c17Timeout  = "timeout"   // blocks c17UpsTimeout (virtual), then *net.OpError i/o timeout
 	c17TimeoutI = "timeout0"  // *net.OpError i/o timeout, at once
+	c17Silent   = "silent"    // never answers: the exchange ends when the CALLER's context is done
+	c17CtxDone  = "ctx-done"  // (recorded only) the exchange was started with a context that was already done
 	c17CtxDL    = "ctxdl"     // error wrapping context.DeadlineExceeded, at once
 	c17EOF      = "eof"       // error wrapping io.EOF (statement silent: not a net.Error)
 	c17BadReply = "badreply"  // mismatched reply: (resp with wrong ID, dns.ErrId) as UpstreamPlain returns
@@ -71,6 +73,10 @@ const (
 
 // c17UpsTimeout is the time a scripted upstream in state "timeout" blocks.
 const c17UpsTimeout = 250 * time.Millisecond
+
+// c17RoundTimeout is the deadline of a health-check round: far longer than
+// every probe that ends on its own, reached only by a silent upstream.
+const c17RoundTimeout = 3 * time.Second
 
 // c17IsReply reports whether outcome o is a reply of the upstream.
 func c17IsReply(o string) bool { return o == c17OK || o == c17Servfail || o == c17NXDomain }
@@ -116,7 +122,7 @@ var _ Upstream = (*c17Ups)(nil)
 func (u *c17Ups) Close() (err error) { return nil }
 func (u *c17Ups) String() (s string) { return u.name }
 
-func (u *c17Ups) Exchange(_ context.Context, req *dns.Msg) (resp *dns.Msg, nw Network, err error) {
+func (u *c17Ups) Exchange(ctx context.Context, req *dns.Msg) (resp *dns.Msg, nw Network, err error) {
 	probe := len(req.Question) == 1 && strings.HasSuffix(req.Question[0].Name, c17ProbeDom)
 	o := u.queryOut
 	if probe {
@@ -128,7 +134,22 @@ func (u *c17Ups) Exchange(_ context.Context, req *dns.Msg) (resp *dns.Msg, nw Ne
 	defer xsched.Yield("upstream " + u.name + ": exchange ends")
 	start := time.Now()
 	addr := &net.UDPAddr{IP: net.IP{192, 0, 2, byte(10 + u.idx)}, Port: 53}
+	if ctx.Err() != nil {
+		// No real exchange gets anywhere with a context that is already done.
+		o = c17CtxDone
+	}
 	switch o {
+	case c17CtxDone:
+		err = fmt.Errorf("upstreamplain: getting connection: %w", ctx.Err())
+	case c17Silent:
+		// A silent upstream with no timeout of its own (a documented
+		// configuration): only the caller's context ends the exchange.
+		select {
+		case <-ctx.Done():
+			err = fmt.Errorf("upstreamplain: udp network reading: %w", ctx.Err())
+		case <-time.After(time.Hour):
+			vrt.Fatalf("c17: a silent upstream was asked without a deadline")
+		}
 	case c17OK, c17Servfail, c17NXDomain:
 		resp = (&dns.Msg{}).SetReply(req)
 		resp.RecursionAvailable = true
@@ -731,7 +752,11 @@ func c17RunHandlerCase(r *vrt.Run, c c17Case) (fs []vrt.Finding) {
 			w.env.src.vals = []uint64{0xc17}
 			w.env.calls = w.env.calls[:0]
 			t0 := time.Now()
-			_ = w.h.Refresh(context.Background())
+			// Like the refresh worker of the service, a round runs under a
+			// deadline; only a silent upstream ever reaches it.
+			rctx, cancel := context.WithTimeout(context.Background(), c17RoundTimeout)
+			_ = w.h.Refresh(rctx)
+			cancel()
 			r.Trans(1)
 			fs = w.ref.round(t0, w.env.calls, w.env.mains)
 			probed := 0
@@ -797,6 +822,9 @@ func c17HandlerConfigs(r *vrt.Run) (cfgs []c17Config) {
 			c17Config{2, 1, 0, []string{k}, d},
 		)
 	}
+	// A silent main upstream: the round's own deadline ends the probe (and,
+	// for the upstreams after it, the round).
+	cfgs = append(cfgs, c17Config{2, 1, backoff, []string{c17Silent}, d - 1}, c17Config{1, 1, backoff, []string{c17Silent}, d})
 	// Without fallbacks.
 	cfgs = append(cfgs, c17Config{2, 0, backoff, []string{c17NetErr}, d}, c17Config{1, 0, backoff, []string{c17Timeout}, d})
 	// Mixed failure kinds in one history.
